@@ -5,5 +5,12 @@ import shipstep
 
 def run(tier):
     c = shipstep.run_step("C09", tier, "H_Step_C09", ("C09.",), {"write_failures_per_step": 0, "pre_buffer_len_max": 0})
-    # hub part added below when built
+    import c02
+    import lib
+    res, meta = lib.run_engine("hub", ["H_C02_Inbound", "H_C02_Outbound"], sched="manual", cuts=c02.C02_CUTS, solver="z3-new", maxstr=40, loop=80, extra=["-bvstr"], timeout_ms=60000)
+    c.add_run("hub-call-sites", res, meta)
+    for e, r in (res or {}).items():
+        for v in r["violations"] or []:
+            if v["kind"] == "assert" and v["id"].startswith("C09."):
+                c.handle("hub", e, v, replay=False)
     return c.finish()
